@@ -8,8 +8,8 @@ PARTIAL = H.PARTIAL
 COMPONENTS = H.COMPONENTS
 RULE = H.RULE
 ASSUMPTIONS = []
-EXPLANATION = 'refinement theorem about an explicit slot model, tied to the real objects by a differential test after every operation + history oracle (the comparison with a fresh object tree IS the property)'
-TECHNIQUE = 'Lean 4 theorems about an explicit state-machine model of the mutable slots, differential test of that model against the real objects, history oracle on the real code (fresh-object comparison)'
+EXPLANATION = 'refinement theorem about an explicit slot model, tied to the real objects by a differential test after every operation + history oracle (the comparison with a fresh object tree IS the property; constructor parameters of the assets compared with their values after construction after every set-up call: oracle parameter_changed)'
+TECHNIQUE = 'Lean 4 theorems about an explicit state-machine model of the mutable slots, differential test of that model against the real objects, history oracle on the real code (fresh-object comparison, constructor parameters unchanged)'
 NEEDS_DRIVER = True
 scenarios = H.scenarios
 run_case = H.run_case
